@@ -281,3 +281,4 @@ package heapq
 //@   at after "q.Pop()": assert [C05] forall j int :: {vs[j]} 0 <= j && j < len(q.data) ==> ord(cmp, vs[j], vs[len(q.data)]) <= 0
 //@   at after "q.Pop()": assert [C05] bagstep(snap(vs), addr(vs, 0), addr(vs, n0)) && abag(snap(vs), addr(vs, 0), addr(vs, n0)) == abag(A0, addr(vs, 0), addr(vs, n0))
 //@   at after "q.Pop()": apply [C05] bagExt(snap(vs), A0, addr(vs, 0), addr(vs, n0), addr(vs, len(vs)))
+//@   at after "q.Pop()": assert [C05] abag(snap(vs), addr(vs, 0), addr(vs, len(vs))) == abag(A0, addr(vs, 0), addr(vs, len(vs)))
